@@ -65,6 +65,7 @@ type synthState struct {
 	synSite     map[ssa.Value]*ssa.Call // synthetic value -> the call site it was translated at
 	usedAsValue map[*ssa.Function]bool
 	phiBusy     map[*ssa.Phi]bool
+	sliceNN     map[*types.Var]int
 	mapNN       map[*types.Var]int
 	allocs      map[string]*ssa.Alloc
 	wo          map[string]*woResult
@@ -1396,44 +1397,7 @@ func (w *World) mapNeverHoldsNil(fld *types.Var) bool {
 		return true
 	}
 	st.mapNN[fld] = 1
-	ai := w.absint()
-	var nonNil func(v ssa.Value, depth int) bool
-	nonNil = func(v ssa.Value, depth int) bool {
-		v = w.resolveLoad(v)
-		if ai.definitelyNonNil(v) {
-			return true
-		}
-		if c, _ := callOf(v); c != nil {
-			// a constructor: every return is a fresh allocation
-			if h := c.Call.StaticCallee(); h != nil && w.IsMod[h] && len(h.Blocks) > 0 && depth > 0 {
-				all := true
-				for _, r := range returnsOf(h) {
-					if len(r.Results) == 0 || !nonNil(r.Results[0], depth-1) {
-						all = false
-					}
-				}
-				return all
-			}
-			return false
-		}
-		if p, ok := v.(*ssa.Parameter); ok && depth > 0 {
-			sites := w.callsTo(p.Parent())
-			if len(sites) == 0 {
-				return false
-			}
-			if obj := p.Parent().Object(); obj != nil && obj.Exported() && p.Parent().Pkg != nil && !strings.Contains(p.Parent().Pkg.Pkg.Path(), "/internal/") {
-				return false // public API: callers unknown
-			}
-			i := paramIndex(p)
-			for _, cs := range sites {
-				if i < 0 || i >= len(cs.Common().Args) || !nonNil(cs.Common().Args[i], depth-1) {
-					return false
-				}
-			}
-			return true
-		}
-		return false
-	}
+	nonNil := w.nonNilValue
 	n := 0
 	ok := true
 	for _, fn := range w.ModFns {
@@ -2506,4 +2470,136 @@ func (w *World) byValueOrigin(b *ssa.Alloc, hc *ssa.Call) ssa.Value {
 		return u.X
 	}
 	return nil
+}
+
+// nonNilValue: v cannot be nil: a fresh allocation, a constructor result, or a parameter that
+// every (module-internal) caller passes such a value for.
+func (w *World) nonNilValue(v ssa.Value, depth int) bool {
+	ai := w.absint()
+	nonNil := w.nonNilValue
+
+	v = w.resolveLoad(v)
+	if ai.definitelyNonNil(v) {
+		return true
+	}
+	if c, _ := callOf(v); c != nil {
+		// a constructor: every return is a fresh allocation
+		if h := c.Call.StaticCallee(); h != nil && w.IsMod[h] && len(h.Blocks) > 0 && depth > 0 {
+			all := true
+			for _, r := range returnsOf(h) {
+				if len(r.Results) == 0 || !nonNil(r.Results[0], depth-1) {
+					all = false
+				}
+			}
+			return all
+		}
+		return false
+	}
+	if p, ok := v.(*ssa.Parameter); ok && depth > 0 {
+		sites := w.callsTo(p.Parent())
+		if len(sites) == 0 {
+			return false
+		}
+		if obj := p.Parent().Object(); obj != nil && obj.Exported() && p.Parent().Pkg != nil && !strings.Contains(p.Parent().Pkg.Pkg.Path(), "/internal/") {
+			return false // public API: callers unknown
+		}
+		i := paramIndex(p)
+		for _, cs := range sites {
+			if i < 0 || i >= len(cs.Common().Args) || !nonNil(cs.Common().Args[i], depth-1) {
+				return false
+			}
+		}
+		return true
+	}
+	return false
+}
+
+// sliceNeverHoldsNil: the slice held in struct field fld never has a nil element: every value
+// stored into the field is nil / empty, or an append onto (a slice of) the field's own value
+// of elements that are non-nil or themselves taken from the field, and no element is assigned
+// nil in place.
+func (w *World) sliceNeverHoldsNil(fld *types.Var) bool {
+	st := w.ss()
+	if st.sliceNN == nil {
+		st.sliceNN = map[*types.Var]int{}
+	}
+	switch st.sliceNN[fld] {
+	case 1:
+		return false
+	case 2:
+		return true
+	}
+	st.sliceNN[fld] = 1
+	fromField := func(v ssa.Value) bool {
+		for i := 0; i < 4; i++ {
+			v = stripIface(w.resolveLoad(v))
+			if sl, ok := v.(*ssa.Slice); ok {
+				v = sl.X
+				continue
+			}
+			break
+		}
+		_, f, ok := fieldLoad(v)
+		return ok && f == fld
+	}
+	ok := true
+	n := 0
+	for _, fn := range w.ModFns {
+		w.eachInstr(fn, func(in ssa.Instruction) {
+			s2, isSt := in.(*ssa.Store)
+			if !isSt {
+				return
+			}
+			switch a := s2.Addr.(type) {
+			case *ssa.FieldAddr:
+				if fieldOf(a) != fld {
+					return
+				}
+				n++
+				v := stripIface(w.resolveLoad(s2.Val))
+				if isNilConst(v) || fromField(v) {
+					return
+				}
+				if ms, isMS := v.(*ssa.MakeSlice); isMS {
+					if k, isK := constInt(ms.Len); isK && k == 0 {
+						return
+					}
+					ok = false
+					return
+				}
+				ac, isC := v.(*ssa.Call)
+				if !isC {
+					ok = false
+					return
+				}
+				b, isB := ac.Call.Value.(*ssa.Builtin)
+				if !isB || b.Name() != "append" || len(ac.Call.Args) != 2 || !(fromField(ac.Call.Args[0]) || isNilConst(stripIface(ac.Call.Args[0]))) {
+					ok = false
+					return
+				}
+				if fromField(ac.Call.Args[1]) {
+					return
+				}
+				els := variadicElemsOrdered(ac.Call.Args[1])
+				if els == nil {
+					ok = false
+					return
+				}
+				for _, e := range els {
+					if !w.nonNilValue(e, 3) {
+						ok = false
+					}
+				}
+			case *ssa.IndexAddr:
+				if fromField(a.X) && !w.nonNilValue(s2.Val, 3) {
+					ok = false
+				}
+			}
+		})
+	}
+	if ok && n > 0 {
+		st.sliceNN[fld] = 2
+		return true
+	}
+	return false
 }
